@@ -982,6 +982,7 @@ int main(int argc, char **argv)
   if (args.replay.size()) {
     // vcheck --replay <file>: re-run the single case recorded in the replay artefact through the normal path
     std::ifstream rf(args.replay);
+    if (!rf && args.kv.count("verif")) { rf.clear(); rf.open(args.kv["verif"] + "/" + args.replay); }   // the driver runs us in a scratch cwd
     std::string txt((std::istreambuf_iterator<char>(rf)), std::istreambuf_iterator<char>());
     size_t p0 = txt.find("\"case\": \"");
     if (p0 == std::string::npos) { p0 = txt.find("\"case\":\""); if (p0 != std::string::npos) p0 += 8; } else p0 += 9;
@@ -1059,6 +1060,7 @@ int main(int argc, char **argv)
           } else {
             r.count("rejected");
             r.seen("rejected_reasons", std::string(VTN[c.vt]) + "|" + COMBN[id.k] + "|" + BIASN[id.b] + "|" + o.what);
+            r.notes.push_back("rejected: " + std::string(VTN[c.vt]) + " variable, " + COMBN[id.k] + ", " + BIASN[id.b] + ": " + o.what);
           }
           break;
         case Outcome::CONSTANT:
@@ -1173,6 +1175,20 @@ int main(int argc, char **argv)
         if (n.rfind(pre, 0) == 0) { groups[pre].push_back(n.substr(pre.size())); grouped = true; break; }
       }
       if (!grouped) keep.push_back(n);
+    }
+    // rejected configurations: distinct (value type, combination, bias, error text) with counts
+    {
+      std::map<std::string, long> rej;
+      std::vector<std::string> keep2;
+      for (auto &n : keep) { if (n.rfind("rejected: ", 0) == 0) rej[n.substr(10)]++; else keep2.push_back(n); }
+      keep = keep2;
+      if (rej.size()) {
+        std::map<std::string, long> bytext;   // error text only
+        for (auto &kv : rej) { size_t p = kv.first.find(": "); bytext[p == std::string::npos ? kv.first : kv.first.substr(p + 2)] += kv.second; }
+        std::string l = "configurations rejected by Colvars for a documented reason (" + std::to_string(rej.size()) + " distinct type/combination/bias/text):";
+        for (auto &kv : bytext) l += " [" + std::to_string(kv.second) + "x " + kv.first + "]";
+        keep.push_back(l);
+      }
     }
     for (auto &g : groups) {
       std::sort(g.second.begin(), g.second.end());
